@@ -1,12 +1,57 @@
 import os
 SOLVER = os.environ.get("C06_SOLVER", "cadical")
-KF = {"KF_TIMER_USEC": None, "KF_FLAGS_MASK": None, "KF_ONESHOT_PVT": None}   # known-finding blocking defines in force (see findings/)
+KF = {}   # all three findings were repaired in /repo (known_findings.json: fixed)   # known-finding blocking defines in force (see findings/)
+
+if os.environ.get("C06_NO_KF"):   # reproduce the findings: run without the blocking clauses
+    KF = {}
 
 META = {
-    "bounds": "",
-    "outside": "",
-    "assumptions": [],
-    "harness_functions": [],
+    "bounds":
+        "Linux/epoll branch of src/threadpool/threadpool.c, real tpt_ev_validate, tpt_ev_post, epoll_ctl_ex, tp_flags_to_ep, "
+        "tpt_ev_add*/enable*/del* and the body of tpt_loop, kernel replaced by recording stubs. "
+        "TIMER ARITHMETIC (timer.c + lemma.c): one registration from a fresh udata or re-arming (add/enable) a timer installed by "
+        "an earlier add in seconds with the same flag set and clock kind; ALL 64-bit data values for s/ms/us/ns through "
+        "tpt_ev_add(ev)/tpt_ev_enable(1,ev); through tpt_ev_add_args/tpt_ev_enable_args everything except the value equality for "
+        "all data, the value equality for all data in seconds and on windows of 4096 values at 0, 10^6, 10^9, 2^32, 2^63, 2^64 "
+        "(quick: re-arm only 10^6 and 10^9); flags in {0, ONESHOT, DISPATCH}, ABSTIME on/off, pool CLOEXEC on/off, every result of "
+        "timerfd_create / epoll_ctl / timerfd_settime. The 128-bit statement tv_sec*10^9+tv_nsec == data*unit is decided as: code "
+        "programs (data/S, (data%S)*U) [timer.c] + that pair satisfies the 128-bit product identity for all data [lemma.c, cvc5]; "
+        "for ns the identity is C11 6.5.5p6 itself and is not re-proved. "
+        "VALIDATION (validate.c): one call of any of the 8 public entry points, all event/flags/fflags/data/ident values, NULL "
+        "event/udata/callback/thread, any previous tpdata. "
+        "GATING (gating.c): histories of <= 3 control calls (add/enable/disable/delete, symbolic) and <= 2 epoll rounds (quick: "
+        "25 shapes; thorough: all 10 interleavings for each of READ/WRITE/TIMER/PROC on the worker and on the pool virtual "
+        "thread, 9 two-identifier interleavings for 16 kind pairs, plus 3-delivery patterns), flags per call symbolic for "
+        "read/write, readiness bits / timeout / EINTR / error / SO_ERROR / timerfd read / waitpid symbolic.",
+    "outside":
+        "enable/disable/delete issued from another thread while the owner runs (races); real kernel timing (a delivery is any "
+        "report epoll(7) permits); kqueue branch; callbacks that themselves call tpt_ev_*; a udata used with more than one "
+        "event kind; two registrations on one descriptor (TP_LINUX_MULTIPLE_EVENTS is off); timers/proc events whose flag set "
+        "or clock kind (ABSTIME) changes between add and enable (the code remembers creation flags and creation clock only - "
+        "an ABSTIME enable on a timer created relative would be programmed on CLOCK_MONOTONIC; not decided here); "
+        "descriptor 0 returned by timerfd_create/pidfd_open (the code uses fd 0 as 'no timer'); injected kernel failures inside "
+        "multi-step histories (covered per call in timer.c); value equality through the *_args entry points outside the listed "
+        "windows for ms/us/ns; uninitialised ev.data passed to a timer callback when read(timerfd) fails; pool creation (C11).",
+    "assumptions": [
+        "kernel stubs (harness/common/tpev/tpev_env.h) for epoll_ctl, epoll_wait, timerfd_create, timerfd_settime, close, read, "
+        "getsockopt, setsockopt, waitpid, syscall(SYS_pidfd_open), fcntl, syslog - results are solver variables restricted only by "
+        "the man-page contracts listed at the top of that file (EEXIST/ENOENT truthfully, EINVAL for non-normalised timespec, "
+        "EPOLLERR|EPOLLHUP always reported, EPOLLONESHOT silences until MOD, close() drops epoll registrations)",
+        "pool pre-state built by hand as static objects (one worker + pool virtual thread, pvt descriptor registered in the "
+        "worker's epoll set, fd_count = 16) instead of tp_create(); tpt_msg_queue_create/destroy, tpt_msg_send are link-only stubs",
+        "timerfd_create / pidfd_open return a fresh descriptor > 0 or -1",
+        "which identifier a control call addresses and which registration an epoll round reports is part of the job shape "
+        "(enumerated), not a solver variable",
+        "identifiers of read/write events are distinct open descriptors in [5, 16)",
+        "Euclid form + lemma.c = 128-bit product statement; uniqueness not needed (lemma proves the product for the Euclid pair)",
+        "signed-overflow/pointer checks of CBMC stay on",
+        "KF_TIMER_USEC, KF_FLAGS_MASK, KF_ONESHOT_PVT blocking clauses while the findings are unfixed (see findings/)",
+    ],
+    "harness_functions": ["harness", "cb", "control", "deliver", "check_state", "k_slot_of_ud", "kind_of", "on_pvt", "epfd_of", "is_rw",
+                          "v_epoll_ctl", "v_epoll_wait", "v_timerfd_create", "v_timerfd_settime", "v_close", "v_read", "v_getsockopt",
+                          "v_setsockopt", "v_waitpid", "v_syscall", "v_fcntl", "v_syslog", "tpev_env_init", "tpev_k_find", "tpev_t_find",
+                          "tpev_fd_in_use", "tpev_new_fd", "tpev_ts_valid", "tpev_on_wait_exhausted", "tpt_msg_queue_create",
+                          "tpt_msg_queue_destroy", "tpt_msg_send", "v_alloc", "v_buf"],
 }
 
 UNITS = ["s", "ms", "us", "ns"]
